@@ -169,6 +169,17 @@ func concOps() []concOp {
 			}
 			return hx(p.CompressedBytes())
 		}},
+		{"schnorr_from_point", func(sh *shared, arg int) string { // key objects built FROM the shared point: it stays the caller's
+			k, err := bitcoin.NewSchnorrPublicKeyFromPoint(sh.pt)
+			if err != nil {
+				return "err"
+			}
+			k2, err := secec.NewPublicKeyFromPoint(sh.pt)
+			if err != nil {
+				return "err"
+			}
+			return hx(k.Bytes()) + hx(k2.CompressedBytes())
+		}},
 		{"schnorr_sign", func(sh *shared, arg int) string {
 			sig, err := sh.spriv.Sign(&fixedReader{ent(arg)}, msg(arg), nil)
 			if err != nil {
@@ -297,7 +308,7 @@ func concRun(c *ctx, hammer bool) {
 	// phase 3: every operation on its own, hammered by all goroutines at once (shared state INSIDE one operation — a static scratch
 	// slot, a pooled buffer — needs two callers in the same few instructions; the random mix above rarely puts them there)
 	runtime.GOMAXPROCS(runtime.NumCPU())
-	iters := c.scale(12, 60)
+	iters := c.scale(40, 120) // > 1024 calls per operation (anything that refreshes shared state every 2^k calls comes round)
 	for oi, o := range ops {
 		if !hammer {
 			break
